@@ -108,7 +108,8 @@ def sweep_installed(tid0, limit_modules, allow_lists, seed):
     without side effects: we only read code objects of modules that import cleanly)."""
     core.use_repo()
     import monkeytype.config as cfg
-    roots = [str(p) for p in cfg.LIB_PATHS]
+    # the oracle's library roots come from the interpreter, not from monkeytype.config
+    roots = sorted({os.path.realpath(p) for p in (sysconfig.get_path(n) for n in ("stdlib", "purelib", "platlib")) if p})
     names = sorted({m.name for m in pkgutil.iter_modules() if not m.name.startswith("_")})
     rng = random.Random(seed)
     rng.shuffle(names)
@@ -294,6 +295,84 @@ def run_main_scenarios(tid0, n, seed):
     return recs
 
 
+LINKED_SCRIPT = '''
+import json, os, sys, sysconfig, textwrap
+import mypy_extensions
+import monkeytype.config as cfg
+user = os.environ["MTV_USER_FILE"]
+out = []
+for label, code in (("stdlib", textwrap.dedent.__code__), ("site", mypy_extensions.trait.__code__),
+                    ("user", compile("def f():\\n    return 1\\n", user, "exec"))):
+    out.append({"label": label, "filename": code.co_filename, "verdict": bool(cfg.default_code_filter(code))})
+print(json.dumps({"obs": out, "roots": [sysconfig.get_path(n) for n in ("stdlib", "purelib", "platlib")]}))
+'''
+
+
+def symlinked_prefix_scenarios(tid0):
+    """The interpreter reached through a SYMLINKED prefix (a venv under `current -> releases/N`, /home -> /data/home):
+    sysconfig reports the library directories through the link, imported code objects carry file names through the
+    link; the standard library and site-packages are still the standard library and site-packages."""
+    d = tlc.scratch_dir("mtverif_lnk_")
+    recs = []
+    try:
+        link = os.path.join(d, "current")
+        os.symlink(sys.prefix, link)
+        interp = os.path.join(link, "bin", os.path.basename(sys.executable))
+        if not os.path.exists(interp):
+            return recs
+        os.makedirs(os.path.join(d, "proj"))
+        env = dict(os.environ, PYTHONPATH=core.REPO, MTV_USER_FILE=os.path.join(d, "proj", "u.py"))
+        env.pop("MONKEYTYPE_TRACE_MODULES", None)
+        p = subprocess.run([interp, "-c", LINKED_SCRIPT], env=env, capture_output=True, text=True, timeout=300)
+        if p.returncode != 0:
+            raise RuntimeError("linked interpreter failed: %s" % p.stderr[-400:])
+        res = json.loads(p.stdout.strip().splitlines()[-1])
+        roots = sorted({os.path.realpath(r) for r in res["roots"] if r})
+        for j, o in enumerate(res["obs"]):
+            recs.append(admit_record(tid0 + j, o["filename"], o["label"], [], o["verdict"], roots))
+            recs[-1]["allowset"] = False
+            recs[-1]["case"] = {"place": "interpreter_prefix_through_symlink", "which": o["label"]}
+    finally:
+        shutil.rmtree(d, ignore_errors=True)
+    return recs
+
+
+def dynamic_code_scenarios(tid0, seed, rounds):
+    """One tracing session in which functions are created at run time, called and dropped: a code object the filter
+    REJECTS is freed before a code object it ADMITS is created (and the other way round), so that addresses of dead code
+    objects are reused by live ones.  Every admitted call must be logged, no rejected one."""
+    import gc
+    core.use_repo()
+    import monkeytype.tracing as mtt
+    recs = []
+    body = "def fn(a):\n    return a\n"
+    for variant, (first, second) in enumerate((("rej", "acc"), ("acc", "rej"), ("rej", "rej_acc"))):
+        got, expected = [], []
+
+        class L:
+            def log(self, t):
+                got.append(t.func.__module__)
+
+            def flush(self):
+                pass
+        flt = lambda code: code.co_filename.endswith("_acc.py")  # noqa: E731
+        with mtt.trace_calls(L(), 0, flt):
+            for i in range(rounds):
+                for which in (first, second):
+                    kinds = ["rej", "acc"] if which == "rej_acc" else [which]
+                    for kd in kinds:
+                        ns = {"__name__": "dyn_%s_%d" % (kd, i)}
+                        exec(compile(body, "/nonexistent/dyn_%d_%s.py" % (i, kd), "exec"), ns)
+                        ns["fn"](i)
+                        if kd == "acc":
+                            expected.append(ns["__name__"])
+                        del ns
+                        gc.collect()
+        recs.append({"tid": tid0 + variant, "ev": "Run", "modules": [], "expected": sorted(expected), "got": sorted(got),
+                     "mode": "dynamic code objects, %s then %s, %d rounds" % (first, second, rounds)})
+    return recs
+
+
 def custom_filter_scenarios(seed, n, tier):
     """(b) custom filters = random subsets of the scripted program's functions, through the tracer replay."""
     from . import replay_tracer as rt
@@ -338,7 +417,12 @@ def main(pid, tier, seed, replay=None):
     vend = vendored_copies(3 * 10 ** 6, 12 if q else 60, seed)
     plan.append({"family": "an installed library file and a byte-identical copy in a user directory in one program, both orders "
                            "of first use, one cache lifetime", "cases": len(vend)})
-    allrecs = recs + sweep + runs + vend
+    dyn = dynamic_code_scenarios(4 * 10 ** 6, seed, 200 if q else 3000)
+    plan.append({"family": "functions created at run time, called and dropped in one session (addresses of dead code objects "
+                           "are reused): custom filter by file name", "cases": len(dyn)})
+    lnk = symlinked_prefix_scenarios(5 * 10 ** 6)
+    plan.append({"family": "the interpreter reached through a symlinked prefix: stdlib / site-packages / user file", "cases": len(lnk)})
+    allrecs = recs + sweep + runs + vend + dyn + lnk
     slim = [{k: v for k, v in r.items() if k not in ("case", "ncode", "mode")} for r in allrecs]
     for r in slim:   # homogeneous records per family are not required, but every field a clause reads must exist
         r.setdefault("modules", [])
